@@ -352,7 +352,7 @@ func FromGo(x interface{}) *V {
 	case string:
 		return Str([]byte(t))
 	case []byte:
-		return Bin(t)
+		return Bin(append([]byte{}, t...))
 	case []interface{}:
 		a := make([]*V, len(t))
 		for i, e := range t {
